@@ -465,8 +465,8 @@ def header_mutations(d, rng, recrc):
     h = hdr_of(d)
     ln = h[5]
     out = []
-    alts = {0: [1 - h[0]], 1: [h[1] + 1, 0], 2: [h[2] + 1, 0, 65535], 3: [h[3] + 1, 77], 4: [1, 2, 3, 4, 5, 6, 7, 0],
-            5: [ln - 1, ln + 1, 0], 6: [0, 2, 3, 255], 7: [1, 0xFFFFFFFF]}
+    alts = {0: [1 - h[0]], 1: [(h[1] + 1) % (1 << 32), 0], 2: [(h[2] + 1) % 65536, 0, 65535], 3: [(h[3] + 1) % 65536, 77], 4: [1, 2, 3, 4, 5, 6, 7, 0],
+            5: [ln - 1, (ln + 1) % 65536, 0], 6: [0, 2, 3, 255], 7: [1, 0xFFFFFFFF]}
     for f, vals in alts.items():
         for v in vals:
             if v == h[f] or v < 0:
@@ -729,6 +729,37 @@ def schedules(run, rng, n):
         run_session(run, "schedule:%d" % k, body, pinned=rng.random() < 0.8, with_cb=rng.random() < 0.7)
 
 
+def attack_schedules(run, rng, n, other):
+    """random schedules with the attacker's datagrams injected at random points towards both ends"""
+    for k in range(n):
+        def body(sess, k=k):
+            sess.connect()
+            for _ in range(rng.randrange(8, 20)):
+                a = rng.random()
+                if a < 0.15:
+                    sess.ctick()
+                elif a < 0.28:
+                    sess.stick()
+                elif a < 0.42 and sess.out["client"]:
+                    sess.srecv(rng.choice(sess.out["client"]))
+                elif a < 0.56 and sess.out["server"]:
+                    sess.ctick(rng.choice(sess.out["server"]))
+                elif a < 0.70 and sess.out["client"]:
+                    d = sess.out["client"][0]
+                    ms = d1_mutations(sess, d, rng, False)[0] if hdr_of(d)[4] == 1 else []
+                    if len(sess.out["client"]) > 1 and sess.C.impl.conn.session_key_bytes:
+                        ms = ms + d3_mutations(sess, sess.out["client"][1], rng, False)
+                    ms = ms + keyless_attacks(sess, rng)
+                    sess.srecv(rng.choice(ms)[1])
+                elif a < 0.86 and any(hdr_of(x)[4] == 2 for x in sess.out["server"]):
+                    d2 = [x for x in sess.out["server"] if hdr_of(x)[4] == 2][0]
+                    ms = d2_mutations(sess, d2, rng, False, other)[0]
+                    sess.ctick(rng.choice(ms)[1])
+                else:
+                    sess.advance(rng.choice([15, 300, 300, 1500, T // 2]))
+        run_session(run, "attack-schedule:%d" % k, body, pinned=rng.random() < 0.7, with_cb=rng.random() < 0.7)
+
+
 def systematic_orders(run):
     """the honest order, each single loss, each duplication, each adjacent swap of deliveries"""
     base = ["c0", "s0", "c1"]           # deliver client dgram 0, server dgram 0, client dgram 1
@@ -849,6 +880,7 @@ def injections(run, rng, full):
         sess.stick()
         sess.ctick()
     run_session(run, "replay-after", body, honest_complete=True)
+    return other
 
 
 def mask(r):
@@ -925,6 +957,8 @@ def ctx_unit2(run, rng, n):
 def run(run):
     rng = run.rng
     full = run.thorough()
+    import logging
+    logging.disable(logging.CRITICAL)      # per-connection warnings of the implementation (not observed)
     W.init_ser_hdr()
     install_logtap()
     run.rules.append(RULE)
@@ -932,6 +966,8 @@ def run(run):
     systematic_orders(run)
     run.exhaustive.append("every single loss / duplication / late duplication / adjacent swap of the three handshake "
                           "datagrams, pinned and unpinned")
-    schedules(run, rng, 400 if full else 40)
-    injections(run, rng, full)
+    schedules(run, rng, 1500 if full else 120)
+    other = injections(run, rng, full)
+    attack_schedules(run, rng, 1500 if full else 100, other)
     run.evaluations += run.dist.get("sessions", 0)
+    logging.disable(logging.NOTSET)
